@@ -156,14 +156,19 @@ func (p *p2cPicker) buildDoneFunc(c *subConn) func(balancer.DoneInfo) {
 		if info.Err != nil && !codes.Acceptable(info.Err) {
 			success = 0
 		}
-		oSuccess := atomic.LoadUint64(&c.success)
-		nSuccess := float64(oSuccess)*w + float64(success)*(1-w)
-		if uint64(success) > oSuccess {
-			// 向上取整：完成得很密集时（w 接近 1）增量不足 1，截断会让分数只降不升，
-			// 恢复正常的后端永远回不到健康
-			nSuccess = math.Ceil(nSuccess)
+		// 读-算-写要整体生效：并发完成的调用不能用旧分数算出的结果覆盖别人刚写入的分数
+		for {
+			oSuccess := atomic.LoadUint64(&c.success)
+			nSuccess := float64(oSuccess)*w + float64(success)*(1-w)
+			if uint64(success) > oSuccess {
+				// 向上取整：完成得很密集时（w 接近 1）增量不足 1，截断会让分数只降不升，
+				// 恢复正常的后端永远回不到健康
+				nSuccess = math.Ceil(nSuccess)
+			}
+			if atomic.CompareAndSwapUint64(&c.success, oSuccess, uint64(nSuccess)) {
+				break
+			}
 		}
-		atomic.StoreUint64(&c.success, uint64(nSuccess))
 
 		stamp := p.stamp.Load()
 		if now-stamp >= logInterval {
